@@ -158,3 +158,11 @@ also("C12", "ESP rule on wipeout functions", "Also decides that no production Wi
 also("C15", "goroutines explored as calls at the spawn point", "A goroutine started by the endorse run is checked against the same flag gates as a direct call.")
 also("C18", "who-may-call rule on Reader.Read", "Also decides that no stream decoder reads a field with a single Reader.Read call (finding F21).")
 also("C19", "producer whitelist for the evaluator's values", "Also decides that every value the evaluator yields is read out of the message walked, never a descriptor default.")
+
+# rules added after the round-9 seeds and findings F22/F23
+also("C06", "who-may-write rule on the request Context", "Also decides that nothing in the measurement/signing closure writes a field of the request Context.")
+also("C07", "statelessness of the verification closure (shared with C09.R1/R4)", "Also decides that the verification closure keeps no state between calls, so a repeated malformed input is answered as the first time.")
+also("C08", "field-based upper-bound fixpoint over refusing comparisons", "Also decides that every image-decoded field bounding a slice of the image in package ovmf is bounded from above by some refusing comparison.")
+also("C10", "effects analysis of Signer.PublicKey", "Also decides that reading a key's public half writes nothing in the signer.")
+also("C14", "ESP rule on read failures", "Also decides that a failed workspace read that is not 'not found' fails the attempt.")
+also("C18", "EOF-acceptance rule, whole-input drain rule, affine narrowing check in constructors", "Also decides that a clean end of input is only accepted between records (F22), that whole-input decoders drain their reader, and that constructors bound constant+variable lengths below the field width (F23).")
